@@ -6,7 +6,10 @@ call is a parameter (`Fns K`), `K` is an arbitrary type with arithmetic *notatio
 are used — the statements therefore also hold for IEEE floats, NaN and inf included).
 -/
 import OdlModel.Model.ProxProg
+import OdlModel.Model.Call
 import OdlModel.Lemmas.ProxProg
+import OdlModel.Lemmas.Call
+import OdlModel.Props.C03
 import Mathlib.Tactic.SplitIfs
 
 namespace OdlModel.C10
@@ -16,13 +19,13 @@ open OdlModel.Prox
 held before (`j`) and whatever uninitialised temporaries contain (`jk`, `jk'`). The initial
 memory `m` is arbitrary: buffer 0 is `x`, buffers 2–5 the closed-over data. -/
 def AliasSafe {K} (P : Stmt K) : Prop :=
-  ∀ (jk jk' : Buf → Vec K) (m : Buf → Vec K) (j : Vec K),
+  ∀ (jk jk' : Nat → Vec K) (m : Nat → Vec K) (j : Vec K),
     (run jk P 0 0 m).mem 0 = (run jk' P 0 1 (fun b => if b = 1 then j else m b)).mem 1
 
 /-- Pre-existing buffers other than `out` (the input and the closed-over data, ids < 10) are
 not written. -/
 def Frame {K} (P : Stmt K) : Prop :=
-  ∀ (jk : Buf → Vec K) (m : Buf → Vec K) (ob : Nat), ob ≤ 1 →
+  ∀ (jk : Nat → Vec K) (m : Nat → Vec K) (ob : Nat), ob ≤ 1 →
     ∀ b : Nat, b < 10 → b ≠ ob → (run jk P 0 ob m).mem b = m b
 
 /-- `ProximalL1._call` with the `if x is out: x = x.copy()` guard removed (what the code
@@ -65,7 +68,7 @@ def intPar : Par Int := { lam := 1, sigma := 2, gamma := 1, radius := 1, eps := 
 
 end OdlModel.C10
 
-open OdlModel.Prox OdlModel.Prox.Lemmas OdlModel.C10
+open OdlModel.Prox OdlModel.Prox.Lemmas OdlModel.C10 OdlModel.Call OdlModel.Call.Lemmas OdlModel.C03
 
 /-- Main theorem. For EVERY modelled `_call` body (all proximal classes of
 `proximal_operators.py`, `ProximalSimplex`, `ProximalSum`, and the `default_ops` operators the
@@ -115,7 +118,7 @@ theorem C10.out_junk_independent {K : Type} [Add K] [Sub K] [Mul K] [Div K] [Neg
     [OfNat K 0] [OfNat K 1]
     (F : Fns K) (hF : ∀ b, F.truthy (F.ofBool b) = b) (hz : ∀ a : K, 0 * a + 0 * a = 0)
     (P : Par K) (id : ProxId)
-    (jk jk' : Buf → Vec K) (m : Buf → Vec K) (j j' : Vec K) :
+    (jk jk' : Nat → Vec K) (m : Nat → Vec K) (j j' : Vec K) :
     (run jk (prog F P id) 0 1 (fun b => if b = 1 then j else m b)).mem 1 =
     (run jk' (prog F P id) 0 1 (fun b => if b = 1 then j' else m b)).mem 1 := by
   rw [← C10.alias_safe F hF hz P id jk jk m j, ← C10.alias_safe F hF hz P id jk jk' m j']
@@ -136,6 +139,58 @@ theorem C10.frame {K : Type} [Add K] [Sub K] [Mul K] [Div K] [Neg K] [OfNat K 0]
   all_goals (try split_ifs)
   all_goals simp_all
 
+/-- Every modelled `_call` body, packaged as an in-place leaf of the call-protocol model
+(`Leaf.ofProg`), satisfies the leaf contract of C03 — including the aliased case `x is out`:
+this is where `alias_safe` enters the combinator theorem. -/
+theorem C10.prog_leaf_ok {K : Type} [Add K] [Sub K] [Mul K] [Div K] [Neg K] [OfNat K 0]
+    [OfNat K 1] (F : Fns K) (hF : ∀ b, F.truthy (F.ofBool b) = b)
+    (hz : ∀ a : K, 0 * a + 0 * a = 0) (P : Par K) (id : ProxId) (jk : Nat → Vec K)
+    (d : Nat → Vec K) : LeafOK (Leaf.ofProg jk (prog F P id) d) := by
+  refine ⟨fun h => absurd rfl h, fun _ s x y hx hy => ?_⟩
+  have hA := C10.alias_safe F hF hz P id
+  refine ⟨by simp [Leaf.ofProg], ?_, ?_, by simp [Leaf.ofProg]⟩
+  · simp only [Leaf.ofProg, write_mem_same]
+    by_cases hxy : x = y
+    · subst hxy
+      simp only [if_true]
+      rw [hA jk jk (localMem s x x d) (s.mem x),
+        hA jk jk (fun b => if b = 0 then s.mem x else d b) (s.mem x)]
+      congr 2
+      funext b
+      by_cases h1 : b = 1 <;> by_cases h0 : b = 0 <;> simp [localMem, h1, h0]
+    · simp only [hxy, if_false]
+      rw [hA jk jk (fun b => if b = 0 then s.mem x else d b) (s.mem y)]
+      congr 2
+      funext b
+      by_cases h1 : b = 1 <;> by_cases h0 : b = 0 <;> simp_all [localMem]
+  · intro b _ hne
+    simp only [Leaf.ofProg]
+    exact write_mem_other _ _ _ _ hne
+
+/-- Alias safety lifted through the operator calculus (`proximal_translation`,
+`proximal_arg_scaling`, `proximal_quadratic_perturbation`, `proximal_composition`,
+`proximal_convex_conj` build their results with `+`, `*`, scalar and vector multiplication of
+operators): for every expression tree, of any depth, whose leaves satisfy the leaf contract —
+by `C10.prog_leaf_ok` every modelled proximal body does — the aliased call `op(x, out=x)`
+returns `x` holding exactly what the non-aliased call `op(x, out=y)` leaves in `y`, and
+neither writes any other existing object. -/
+theorem C10.alias_safe_tree {K : Type} [CommRing K] (jk jk' : Nat → Vec K) (e : Op K)
+    (h : AllOK e) (s : St K) (x y : Nat) (hx : x < s.next) (hy : y < s.next) :
+    ∃ s1 s2, callI jk e x x s = .ok x s1 ∧ callI jk' e x y s = .ok y s2 ∧
+      s1.mem x = s2.mem y ∧ (∀ b : Nat, b < s.next → b ≠ x → s1.mem b = s.mem b) := by
+  obtain ⟨s1, e1, v1, f1, _⟩ := C03.call_in_place jk e h s x x hx hx
+  obtain ⟨s2, e2, v2, _, _⟩ := C03.call_in_place jk' e h s x y hx hy
+  exact ⟨s1, s2, e1, e2, by rw [v1, v2], f1⟩
+
+/-- Non-vacuity of `alias_safe_tree` with program leaves: `proximal_translation` of the L1
+proximal, `Const(y) + ProxL1 ∘ (Id − Const(y))`, as a tree whose leaf is the MODEL PROGRAM of
+`ProximalL1._call`, satisfies the hypotheses over ℤ. -/
+example : AllOK (K := Int)
+    (.vecsum (.comp (.leaf (Leaf.ofProg (fun _ _ => 0) (prog intFns intPar (.l1 false false))
+        (fun _ _ => 0))) (.vecsum (.leaf (scaleLeaf 1)) (fun _ => -3))) (fun _ => 3)) :=
+  ⟨C10.prog_leaf_ok intFns (by intro b; cases b <;> simp [intFns]) (by intro a; simp) intPar _ _ _,
+   C03.scale_leaf_ok 1⟩
+
 /-- The theorem has teeth: `ProximalL1._call` WITHOUT its copy guard is not alias safe
 (1-element witness over ℤ: x = 5, σλ = 2: aliased result 0, correct result 4). -/
 theorem C10.l1_without_guard_fails : ¬ AliasSafe (l1NoGuard intFns intPar) := by
@@ -143,13 +198,11 @@ theorem C10.l1_without_guard_fails : ¬ AliasSafe (l1NoGuard intFns intPar) := b
   have := congrFun (h (fun _ _ => 0) (fun _ _ => 0) (fun _ _ => 5) (fun _ => 7)) 0
   revert this
   simp [run, exec, l1NoGuard, env0, Env.set, St.write, srcVals, intFns, intPar]
-  decide
 
 /-- Non-vacuity: a concrete aliased run of the real `ProximalL1` body over ℤ
 (x = 5, σ = 2, λ = 1 ⇒ 5 − 5/max(5/2,1) = 5 − 2 = 3 with integer division). -/
 example : (run (fun _ _ => 0) (prog intFns intPar (.l1 false false)) 0 0 (fun _ _ => 5)).mem 0 0 = 3 := by
   simp [run, exec, prog, env0, Env.set, St.write, srcVals, intFns, intPar]
-  decide
 
 example : AliasSafe (prog intFns intPar .huber) :=
   C10.alias_safe intFns (by intro b; cases b <;> simp [intFns]) (by intro a; simp) intPar .huber
